@@ -171,6 +171,25 @@ func runC11(w *World, r *Report) {
 		}
 	}
 	// R4 retention
+	// a reload that reports success has installed its version (also on the fail-safe path,
+	// which unmanages immediately): every nil return of UpdatePoliciesData follows setNextVersion
+	if up := w.Fn(pkgConfig, "TxnPoliciesAccessor.UpdatePoliciesData"); up == nil {
+		r.Undec("R4", "UpdatePoliciesData", token.NoPos, "function not found")
+	} else {
+		sv := CallsIn(up, false, "TxnPoliciesAccessor).setNextVersion")
+		ok := len(sv) == 1
+		nOK := 0
+		for _, alt := range ReturnAlts(up, 0) {
+			if !isNilConst(alt.Val) {
+				continue
+			}
+			nOK++
+			if ok && !domInstr(sv[0], alt.Ret) {
+				ok = false
+			}
+		}
+		r.Check(ok && nOK > 0, "R4", "UpdatePoliciesData/success-means-installed", up.Pos(), "every nil return of UpdatePoliciesData is preceded by setNextVersion(newPoliciesData) (%d success exits)", nOK)
+	}
 	if sn := w.Fn(pkgConfig, "TxnPoliciesAccessor.setNextVersion"); sn == nil {
 		r.Undec("R4", "setNextVersion", token.NoPos, "function not found")
 	} else {
@@ -272,10 +291,14 @@ func runC11(w *World, r *Report) {
 			r.Undec("R5", "vacuum/delete", vc.Pos(), "delete site not found")
 		} else {
 			op := ""
+			// the entry whose expiry is tested is the entry whose key is deleted (a test of the
+			// first entry only, hoisted in front of the loop, says nothing about the others)
+			entryOf := func(p, field string) string { return strings.TrimSuffix(p, field) }
+			delEntry := entryOf(Path(del.Call.Args[1]), ".keyToVacuum")
 			for _, rel := range Rels(del.Block()) {
-				if strings.HasSuffix(Path(rel.L), ".vacuumAt") && isCallTo0(rel.R, "clock.Clock).Now") {
+				if strings.HasSuffix(Path(rel.L), ".vacuumAt") && entryOf(Path(rel.L), ".vacuumAt") == delEntry && isCallTo0(rel.R, "clock.Clock).Now") {
 					op = rel.Op
-				} else if strings.HasSuffix(Path(rel.R), ".vacuumAt") && isCallTo0(rel.L, "clock.Clock).Now") {
+				} else if strings.HasSuffix(Path(rel.R), ".vacuumAt") && entryOf(Path(rel.R), ".vacuumAt") == delEntry && isCallTo0(rel.L, "clock.Clock).Now") {
 					op = flipOp(rel.Op)
 				}
 			}
